@@ -215,7 +215,7 @@ func cmdCheck(args []string) int {
 	smtDir := filepath.Join(verifRoot, "smt", pf.ID)
 	scratch := os.Getenv("GOVC_REPO") != ""
 	if scratch {
-		smtDir = filepath.Join(repoRoot, ".govc-smt")
+		smtDir = filepath.Join(repoRoot, ".govc-smt", pf.ID)
 	}
 	os.RemoveAll(smtDir)
 	run := &checkRun{pf: &pf, tier: *tier, seed: seed, scratch: scratch}
